@@ -661,7 +661,6 @@ func (ts *tableSim) mAdd(m *mstate, post *mstate, n *enode.Node, inbound, forceL
 	bi := tBucketOf(ts.self.ID(), n.ID())
 	b := &m.b[bi]
 	nm := mentOf(n)
-	openIP := nm.ip.IsValid() && !nm.ip.IsUnspecified() && !isLANip(nm.ip)
 	badIP := !nm.ip.IsValid() || nm.ip.IsUnspecified()
 	if i := idxOf(b.entries, n.ID()); i >= 0 {
 		e := &b.entries[i]
@@ -669,19 +668,9 @@ func (ts *tableSim) mAdd(m *mstate, post *mstate, n *enode.Node, inbound, forceL
 			return false, false
 		}
 		ipch, portch := nm.ip != e.ip, nm.port != e.port
-		if ipch && (badIP || openIP) {
-			// may be refused by the IP limits: follow the table
-			// refused unless the table ends up with this record (or a later version of it)
-			if j := idxOf(post.b[bi].entries, n.ID()); j >= 0 {
-				pe := post.b[bi].entries[j]
-				same := pe.seq == nm.seq && pe.ip == nm.ip && pe.port == nm.port
-				if !same && (inbound || pe.seq <= nm.seq) {
-					return false, true
-				}
-			}
-			if badIP {
-				return false, false
-			}
+		if ipch && !mIPFits(m, bi, nm.ip, n.ID()) {
+			ts.w.probe("update_refused_by_ip_limit")
+			return false, false // the new address does not fit the /24 limits: the previous record stays
 		}
 		e.seq, e.ip, e.port = nm.seq, nm.ip, nm.port
 		if ipch || portch {
@@ -693,15 +682,9 @@ func (ts *tableSim) mAdd(m *mstate, post *mstate, n *enode.Node, inbound, forceL
 		if idxOf(b.repl, n.ID()) >= 0 || badIP {
 			return false, false
 		}
-		if openIP {
-			// refused by the IP limits unless the table ends up holding exactly this record as a replacement
-			j := idxOf(post.b[bi].repl, n.ID())
-			if j < 0 {
-				return false, true
-			}
-			if pr := post.b[bi].repl[j]; pr.seq != nm.seq || pr.ip != nm.ip || pr.port != nm.port {
-				return false, true
-			}
+		if !mIPFits(m, bi, nm.ip, n.ID()) {
+			ts.w.probe("replacement_refused_by_ip_limit")
+			return false, false
 		}
 		b.repl = append([]ment{nm}, b.repl...)
 		if len(b.repl) > tMaxRepl {
@@ -712,16 +695,9 @@ func (ts *tableSim) mAdd(m *mstate, post *mstate, n *enode.Node, inbound, forceL
 	if badIP {
 		return false, false
 	}
-	if openIP {
-		// refused by the IP limits unless the table ends up holding this record (or a later version of it)
-		j := idxOf(post.b[bi].entries, n.ID())
-		if j < 0 {
-			return false, true
-		}
-		pe := post.b[bi].entries[j]
-		if !(pe.seq == nm.seq && pe.ip == nm.ip && pe.port == nm.port) && pe.seq <= nm.seq {
-			return false, true
-		}
+	if !mIPFits(m, bi, nm.ip, n.ID()) {
+		ts.w.probe("add_refused_by_ip_limit")
+		return false, false
 	}
 	if forceLive {
 		nm.credit, nm.live = 1, true
@@ -885,6 +861,11 @@ func (ts *tableSim) applyPings(m, post *mstate, op opSpec, hooks *[]hookEv, fail
 		if pe.newRec != nil && pe.newRec.Seq() > e.seq {
 			nm := mentOf(pe.newRec)
 			changed := nm.ip != e.ip || nm.port != e.port
+			if nm.ip != e.ip && !mIPFits(m, bi, nm.ip, pe.id) {
+				// the new address does not fit the /24 limits (C07): the previous record stays
+				w.probe("record_update_refused_by_ip_limit")
+				continue
+			}
 			e.seq, e.ip, e.port = nm.seq, nm.ip, nm.port
 			if changed {
 				e.live = false
@@ -904,3 +885,31 @@ func (ts *tableSim) applyPings(m, post *mstate, op opSpec, hooks *[]hookEv, fail
 }
 
 var _ = sort.Ints
+
+// mIPFits: would a node of bucket bi moving to (or arriving with) address ip respect the /24 limits, given
+// every other entry and replacement of the model? Mirrors the rule of C07 (2 per bucket, 10 per table,
+// LAN addresses exempt, no address = never).
+func mIPFits(m *mstate, bi int, ip netip.Addr, skip enode.ID) bool {
+	if !ip.IsValid() || ip.IsUnspecified() {
+		return false
+	}
+	if isLANip(ip) {
+		return true
+	}
+	pfx, _ := ip.Prefix(24)
+	inBucket, inTable := 0, 0
+	for i := range m.b {
+		for _, list := range [][]ment{m.b[i].entries, m.b[i].repl} {
+			for _, e := range list {
+				if e.id == skip || !e.ip.IsValid() || isLANip(e.ip) || !pfx.Contains(e.ip) {
+					continue
+				}
+				inTable++
+				if i == bi {
+					inBucket++
+				}
+			}
+		}
+	}
+	return inBucket < 2 && inTable < 10
+}
